@@ -43,9 +43,6 @@ impl Body {
                 && (r->Some_0 is Ok) == !(old(self).frames@[0] is Error),
     { unimplemented!() }
 }
-/// http_util::http_dump_body (async, generic over the body type): reads and drops the rest
-#[verifier::external_body]
-pub fn http_dump_body(body: &mut Body) -> (r: Result<usize, BodyError>) { unimplemented!() }
 
 /// hyper::Request<crate::Body>: only the body matters to the body extractors
 pub struct Request { pub body: Body, pub headers: HeaderMap }
